@@ -13,7 +13,7 @@ LEVEL = 'exploration'
 RULE = ("Algorithm L consumes continuous uniforms, so this property is decided statistically (rule 2.7 of DESIGN.md): for every "
         "k in 1..3 and n in k..k+6 the FULL histogram of retained subsets over N independent runs of the library's own sampler is "
         "compared cell by cell with 1/C(n,k) (exact two-sided binomial tail, Bonferroni over the cells, alarm only if p < 1e-9 AND an "
-        "independent confirmation run with 4N executions gives p < 1e-6); n = k is asserted deterministically (everything retained); store_targets alternates between the pairs (the law must not depend on it); "
+        "independent confirmation run with 4N executions gives p < 1e-6); n = k is asserted deterministically (everything retained); store_targets alternates between the pairs (the law must not depend on it) and with store_targets the observations are EQUAL-valued dicts identified by their targets; "
         "for larger pairs (5,40), (10,100), (100,300 = the explainers' default size) and Hypothesis-drawn pairs (k<=12, n<=k+40) the "
         "per-arrival inclusion counts are compared with k/n; LONG streams (k=1, n=30000; k=2, n=25000 - beyond 1e4*k, where numerical guards on the weight would bite) are tested per decile of the stream. N = 4e4 per pair (quick), 2e6 spread over 16 workers (thorough). "
         "Non-trivial: n >= k+2 (at least two skip computations); distinct = distinct (k, n, retained subset) outcomes observed.")
@@ -26,13 +26,14 @@ def one_run(k, n, st=None):
     from ixai.storage import UniformReservoirStorage
     if st is None:
         st = (k + n) % 2 == 0
-    s = UniformReservoirStorage(size=k, store_targets=st)
+    s = UniformReservoirStorage(size=k, store_targets=st) if n % 3 else UniformReservoirStorage(k, st)   # keyword and positional
     if st:
+        # EQUAL observations (a binary feature): arrivals are identified by the target stored with them
         for i in range(1, n + 1):
-            s.update({'id': i}, i)
-    else:
-        for i in range(1, n + 1):
-            s.update({'id': i})
+            s.update({'v': i % 2}, i)
+        return tuple(sorted(s.get_data()[1]))
+    for i in range(1, n + 1):
+        s.update({'id': i})
     xs, _ = s.get_data()
     return tuple(sorted(x['id'] for x in xs))
 
